@@ -1150,8 +1150,11 @@ impl<'a> CompactionIterator<'a> {
 				// Latest REPLACE: not stale (will be output)
 				false
 			} else if is_hard_delete {
-				// Older DELETE: always stale (only latest tombstone matters)
-				true
+				// Older DELETE with newer versions above it. Without versioning only the
+				// latest version matters. With versioning the versions it erased are
+				// retained like all others (here or in a deeper level), and this marker
+				// is what keeps them out of the history: it is retained the same way.
+				!self.enable_versioning || self.older_version_expired(key.timestamp)
 			} else if newest_replace_idx.is_some_and(|r| i > r) && !is_replace {
 				// Below a REPLACE: every non-REPLACE version older than it is stale
 				true
@@ -1161,16 +1164,8 @@ impl<'a> CompactionIterator<'a> {
 					// No versioning enabled: only the latest version matters,
 					// all older versions are stale
 					true
-				} else if self.retention_period_ns > 0 {
-					// Versioning enabled with retention period:
-					// Keep versions within the retention window, drop older ones
-					let current_time = self.clock.now();
-					let age = current_time.saturating_sub(key.timestamp);
-					age > self.retention_period_ns
 				} else {
-					// Versioning enabled, retention_period_ns == 0:
-					// Keep all versions forever
-					false
+					self.older_version_expired(key.timestamp)
 				}
 			};
 
@@ -1204,6 +1199,19 @@ impl<'a> CompactionIterator<'a> {
 		// Clear accumulated versions for the next key
 		self.accumulated_versions.clear();
 		Ok(())
+	}
+
+	/// Versioning enabled: has an older version with this timestamp left the
+	/// retention window? (`retention_period_ns == 0` keeps all versions forever.)
+	fn older_version_expired(&self, timestamp: u64) -> bool {
+		if self.retention_period_ns > 0 {
+			// Keep versions within the retention window, drop older ones
+			let current_time = self.clock.now();
+			let age = current_time.saturating_sub(timestamp);
+			age > self.retention_period_ns
+		} else {
+			false
+		}
 	}
 
 	/// Advance to the next output entry.
